@@ -4,7 +4,7 @@
 From Coq Require Import Reals Lra ZArith Bool List.
 From Flocq Require Import Core.Raux.
 From SC Require Import Num Vec3 VecR Kernel KernelProofs Grid Contact Contact_gen ContactProofsB ContactProofsC.
-From SC Require ContactTie.
+From SC Require ContactTie Narrow_gen Kernel_gen.
 Import ListNotations.
 Local Open Scope R_scope.
 
@@ -99,3 +99,14 @@ Print Assumptions grid_equals_all_pairs.
 Theorem search_around_the_narrow_phase_is_what_the_source_says : ContactTie.search_tie.
 Proof. exact ContactTie.search_around_the_narrow_phase_is_what_the_source_says. Qed.
 Print Assumptions search_around_the_narrow_phase_is_what_the_source_says.
+
+(* WHAT THE REGENERATED CODE DOES: the statement on which the soundness of the broad phase rests, about the regenerated padded face
+   box (update_face_aabbs), the regenerated padding (the constructor) and the regenerated kernel themselves, at R: a point whose squared
+   distance to a non-degenerate triangle is below the largest squared cut-off passes the box test of that triangle.  (Convertible
+   with the model: the proof is the model's.) *)
+Theorem regenerated_within_cutoff_in_box : forall (cut_adh cut_rep : R) (p a b c : vR),
+  0 <= cut_adh -> 0 <= cut_rep -> nondegenerate a b c ->
+  k_dist (Kernel_gen.kernel_gen NumR p a b c) < nmax NumR (Narrow_gen.cut2_rep_gen NumR cut_adh cut_rep) (Narrow_gen.cut2_adh_gen NumR cut_adh cut_rep) ->
+  in_box NumR (Contact_gen.face_box_gen NumR (Contact_gen.pad_gen NumR cut_adh cut_rep) a b c) p = true.
+Proof. intros cut_adh cut_rep p a b c Hadh Hrep. exact (within_cutoff_in_box cut_adh cut_rep Hadh Hrep p a b c). Qed.
+Print Assumptions regenerated_within_cutoff_in_box.
